@@ -36,6 +36,7 @@ type JobResult struct {
 }
 
 var transcriptDir = os.Getenv("VERIF_TRANSCRIPT")
+var transcriptSeq int
 var traceJobs = os.Getenv("VERIF_TRACEJOBS") != ""
 
 // interpretSet decides which packages are executed from SSA.
@@ -84,7 +85,11 @@ func RunJobs(l *Loaded, jobs []*Job, workers int, cfg symx.Config, deadline time
 				c.Interpret = interpretDefault
 			}
 			if dir := transcriptDir; dir != "" {
-				f, _ := os.Create(filepath.Join(dir, fmt.Sprintf("worker-%d.smt2", wid)))
+				mu.Lock()
+				transcriptSeq++
+				seq := transcriptSeq
+				mu.Unlock()
+				f, _ := os.Create(filepath.Join(dir, fmt.Sprintf("worker-%d-%d.smt2", seq, wid)))
 				if f != nil {
 					defer f.Close()
 					c.Transcript = f
